@@ -107,7 +107,7 @@ package main
 //@     invariant fresh(decs) && fresh(closer)
 
 //@ func encode
-//@   property C13 C08 C07
+//@   property C13 C08 C07 C09
 //@   returns (err)
 //@   requires [at-least-one-file] len(files) >= 1
 //@   ghost n int = 0
@@ -119,6 +119,9 @@ package main
 //@   at call NewCSVEncoder: ghost libenc = ref(result)
 //@   at call NewEncoder: ghost libenc = ref(result)
 //@   at call NewJSONEncoder: ghost libenc = ref(result)
+//@   before call NewCSVEncoder: assert [encoder-writes-straight-to-the-output-file] ref(arg0) == ref(out)
+//@   before call NewEncoder: assert [encoder-writes-straight-to-the-output-file] ref(arg0) == ref(out)
+//@   before call NewJSONEncoder: assert [encoder-writes-straight-to-the-output-file] ref(arg0) == ref(out)
 //@   at call Decode: assert [each-record-once-in-order] result == nil ==> rec(arg1) == ditem(d, n)
 //@   at call Encode: assert [encodes-the-record-just-decoded] rec(arg1) == ditem(d, n) ; assert [with-the-library-encoder-of-the-chosen-format-itself] ref(arg0) == libenc ; ghost n = n + 1
 //@   ensures [all-records-encoded-unless-interrupted] err == nil && !interrupted && d != 0 ==> n == dlen(d)
